@@ -1,0 +1,39 @@
+//go:build verif
+
+package interp
+
+// Contracts for property C12 (ill-typed programs are rejected before anything runs).
+// Checked by /verif/govc. Comments only.
+
+//@ trusted func (t *itype) equals(o) (r)
+//@   pure
+//@ trusted func (t *itype) underlying() (r)
+//@   pure
+//@ trusted func (t *itype) id() (r)
+//@   pure
+
+// Go spec, Assignability: a value of a defined type V is assignable to a different defined type T
+// only through the interface / nil / channel rules — never because the underlying types agree.
+// linkedT is yaegi's category of types declared by `type T U`.
+//@ func (t *itype) assignableTo(o) (r)
+//@   props C12
+//@   opt safety = off
+//@   opt opaque-calls = *
+//@   opt opaque-havoc = none
+//@   opt inline = typeDefined
+//@   requires [assume] t != nil && o != nil
+//@   case defined-from: (t.cat == linkedT && t.val == o) || (o.cat == linkedT && o.val == t)
+//@   case unrelated: !((t.cat == linkedT && t.val == o) || (o.cat == linkedT && o.val == t))
+//@   ensures identical-accepted: t.equals(o) ==> r
+//@   ensures distinct-defined-types-rejected: t.cat == linkedT && o.cat == linkedT && !t.equals(o) ==> !r
+//@   canary t.cat == linkedT && o.cat == linkedT ==> !r
+
+// eval: the program is executed only after the whole source compiled without error.
+//@ func (interp *Interpreter) eval(src, name, inc) (res, err)
+//@   props C12
+//@   opt safety = off
+//@   opt call-guard:Execute = err == nil
+//@   opt opaque-calls = compileSrc, Execute
+//@   opt opaque-havoc = none
+//@   requires interp != nil
+//@   ensures compile-error-returned: true
